@@ -24,7 +24,7 @@ OBS = ('iter', 'length', 'merged', 'merged_mutate', 'play', 'play_abandon', 'sav
 EDITS = ('add_track', 'tracks_append', 'tracks_insert', 'tracks_pop', 'tracks_set', 'tracks_replace',
          'track_append', 'track_insert', 'track_extend', 'track_pop', 'track_sort', 'track_set',
          'msg_time', 'msg_note', 'tempo_set', 'track_name', 'set_type', 'set_tpb', 'track_slice_del', 'track_iadd',
-         'track_clear', 'bad_assign')
+         'track_clear', 'bad_assign', 'export', 'bad_track_name')
 
 
 def mk(spec):
@@ -150,7 +150,8 @@ class History(BaseEngine):
                                    ('track_insert', 2), ('track_extend', 1), ('track_pop', 1.5), ('track_sort', 0.5),
                                    ('track_set', 1), ('msg_time', 2.5), ('msg_note', 1), ('tempo_set', 1.5),
                                    ('track_name', 0.7), ('set_type', 0.7), ('set_tpb', 1), ('track_slice_del', 0.7),
-                                   ('track_iadd', 0.7), ('track_clear', 0.4), ('bad_assign', 1.2)))
+                                   ('track_iadd', 0.7), ('track_clear', 0.4), ('bad_assign', 1.2), ('export', 1.0),
+                                   ('bad_track_name', 0.5)))
                 ops.append(['edit', e, rng.randrange(1000), rng.randrange(1000),
                             [gen_msg(rng) for _ in range(rng.randint(1, 3))],
                             pick(rng, (0, 1, 10, 480, 1000, 96)), pick(rng, (0, 1, 2, 1, 1))])
@@ -338,7 +339,7 @@ class History(BaseEngine):
                 model['tracks'] = [t for j, t in enumerate(model['tracks']) if (a >> j) & 1]
         elif e in ('track_append', 'track_insert', 'track_extend', 'track_pop', 'track_sort', 'track_set',
                    'msg_time', 'msg_note', 'tempo_set', 'track_name', 'track_slice_del', 'track_iadd', 'track_clear',
-                   'bad_assign'):
+                   'bad_assign', 'export', 'bad_track_name'):
             if not nt:
                 return
             ti = a % nt
@@ -414,6 +415,39 @@ class History(BaseEngine):
                     tr[i].tempo = val * 1000
                     if mtr is not None:
                         mtr[i] = mtr[i].copy(tempo=val * 1000)
+            elif e == 'export':
+                # the application converts the messages of a track to its own representation and works on that
+                # (absolute times, transposition, a thawed copy for another file): the file itself is not edited
+                from mido.frozen import thaw_message
+                acc = 0
+                for m in list(tr):
+                    d = m.dict()
+                    acc += d['time'] if isinstance(d['time'], int) else 0
+                    d['time'] = acc + 1000
+                    for key in ('note', 'tempo'):
+                        if key in d:
+                            d[key] = 1
+                    if d.get('type') == 'sysex' and isinstance(d.get('data'), list):
+                        d['data'].append(0)         # documented: dict() gives sysex data as a list of its own
+                    t = thaw_message(m)
+                    t.time = acc + 2000
+                    if t.type == 'note_on':
+                        t.note = (t.note + 12) % 128
+                    c = m.copy()
+                    c.time = 3000
+                    b = m.bytes() if not (m.is_meta is False and m.type == 'clock') else []
+                    b.append(0)
+                stats['fault:messages_exported_and_export_edited'] += 1
+            elif e == 'bad_track_name':
+                # a name the track cannot take: the assignment raises and the track stays as it was
+                if isinstance(tr, MidiTrack):
+                    try:
+                        tr.name = (None, 5, b'x')[b % 3]
+                    except (TypeError, ValueError):
+                        stats['fault:rejected_assignment'] += 1
+                    else:
+                        if mtr is not None:
+                            mtr[:] = [dc(m) for m in tr]      # accepted after all: mirror it
             elif e == 'bad_assign':
                 # an assignment the message type does not allow: it raises, and the application carries on with
                 # the file as it was
